@@ -157,10 +157,10 @@ def run(ctx: Ctx) -> None:
                    "history, round-robin; thorough: all three); records of all workers are judged together",
                    "socket-family transport = make_pipe_pair; records are collected after the serve loop ended",
                    "logger level alternates INFO (payload omitted) / DEBUG (request_data, state tokens present)",
-                   "two-call histories: seeded sample of the TLC-enumerated set (quick 300, thorough 6000); in quick the "
+                   "two-call histories: seeded sample of the TLC-enumerated set (quick 300, thorough 4000); in quick the "
                    "second call of a history is one with a short client script (AccessLog!ShortOps) and message class ascii")
         ctx.rng.shuffle(pairs)
-        n_pairs = 300 if quick else 6000
+        n_pairs = 300 if quick else 4000
         chosen = singles + pairs[:n_pairs]
         classes = CLASSES_Q if quick else CLASSES_T
         jobs = []
